@@ -17,16 +17,23 @@ CHECKS = {
     "C01": ("safety oracle at the instant of every success report over unbounded fault schedules (drop/dup/delay/reorder/"
             "bit-flip/partition/stall/clock-jump/restart/filestore rejection), tape-chosen pacing, optional earlier delivery of the same "
             "file through the same handlers and filestore; independent file comparison, collision excuse only after a fired bit flip", "5 C01, 12", "invariant at report time"),
-    "C02": ("bounded liveness + completion oracle over the full configuration swarm and tape-decided pacing on a perfect link; a quarter of the "
-            "runs on handlers that already completed a transfer (any mode / closure) and idled beyond every timer interval", "5 C02, 12", "quiescence oracle"),
-    "C03": ("bounded liveness after at most K link faults with limits > K, history shell; before the seeded search every K=1 schedule and (thorough: every, quick: every third) K=2 schedule on small files is executed (sweep)", "5 C03, 12", "bounded-liveness oracle; K<=2 schedule sweep + seeded search"),
-    "C07": ("sender stream model judged on every emitted PDU in fault-free, bounded-fault and cancel populations", "5 C07", "in-situ invariant vs SenderStream model"),
+    "C02": ("bounded liveness + completion oracle over the full configuration swarm and tape-decided pacing on a perfect link (random poll "
+            "intervals; event-driven caller with a sender check interval below the round trip); a quarter of the "
+            "runs on handlers that already completed a transfer (any mode / closure) and idled beyond every timer interval; in a sixth the sending "
+            "user submits a further put request while busy", "5 C02, 12", "quiescence oracle"),
+    "C03": ("bounded liveness after at most K link faults with limits > K, history shell (closed transactions acknowledged with status TERMINATED / "
+            "UNDEFINED / UNRECOGNIZED); regular, random and ticked pacing (timer / PDU arrival races); no fault may be declared and no unsuccessful "
+            "indication delivered; before the seeded search every K=1 schedule and (thorough: every, quick: every third) K=2 schedule on small files is executed (sweep)", "5 C03, 12", "bounded-liveness oracle; K<=2 schedule sweep + seeded search"),
+    "C07": ("sender stream model judged on every emitted PDU in fault-free, bounded-fault and cancel populations; transient read errors of the "
+            "sender's filestore (the user keeps calling) in a quarter of the faulty runs; refused put requests for another file while busy", "5 C07, 12", "in-situ invariant vs SenderStream model + storage fault injection"),
     "C09": ("independent reference checksums compared in situ on every EOF (incl. cancel-time prefixes and re-sent EOFs), completion decision and "
             "verify_checksum call; the sending user re-computes the sent prefix with a per-call chunk-length knob and a second checksum type on the same "
             "filestore object; stand-alone prefix x chunk enumeration is NOT reached (DESIGN 6)", "5 C09, 6, 12", "in-situ invariant vs reference checksums"),
     "C10": ("robustness oracle over synthetic PDU / API / time-step histories against all four handlers in every reachable step", "5 C10", "synthetic peer, exception + state-unchanged oracle"),
     "C04": ("RetryModel (explicit counters and integer-millisecond deadlines of the three retry procedures) judged at every "
-            "handler call while one or both link directions go silent at tape-chosen points, permanently or for a while", "5 C04", "timing oracle on the virtual clock"),
+            "handler call while one or both link directions go silent at tape-chosen points, permanently or for a while; regular and ticked "
+            "pacing (progress handed over in the call that finds the timer expired); source file vanishing from the sender's filestore "
+            "after the EOF (bounded end only)", "5 C04, 12", "timing oracle on the virtual clock"),
     "C19": ("PutModel judged on every put request (valid / invalid / premature by schedule) issued between any two handler calls on two "
             "source handlers sharing one sequence provider, two remote-entity configurations, 3x3 request-level mode / closure "
             "settings; header mode, Metadata closure flag, segment length, CRC flag, id widths, sequence numbers judged on every "
@@ -38,11 +45,14 @@ CHECKS = {
             "sibling pair of handler instances, and beside a second source / destination handler on the same two entities (shared MIB, user, "
             "filestore, sequence provider), all interleaved by the same scheduler; normalised observable traces and final file must be equal", "5 C11, 12", "twin-run differential on exactly repeatable executions"),
     "C12": ("clauses (a)-(e) judged on cancel requests (right / wrong id) injected between any two handler calls on either side, "
-            "both modes, closure and disposition settings, optional link faults", "5 C12", "cancel-point search"),
+            "both modes, closure and disposition settings, optional link faults; epilogue with a user who issues cancel requests before fetching "
+            "the PDUs of the previous call", "5 C12, 12", "cancel-point search"),
     "C13": ("check-timer RetryModel judged at every call while the link makes the EOF overtake tape-chosen File Data PDUs and "
-            "releases them relative to the expiries; separate sender scenario", "5 C13", "timing oracle on the virtual clock"),
-    "C14": ("FaultTableModel judged at every call over nine fault-provoking scenarios x handler codes for every condition of both "
-            "entities", "5 C14", "fault scenario x handler table search"),
+            "releases them relative to the expiries; separate sender scenario (Finished PDU on time / late / never); regular, random, ticked, "
+            "lazy and event-driven pacing, so that late PDUs also arrive in the call that finds the check timer expired", "5 C13, 12", "timing oracle on the virtual clock"),
+    "C14": ("FaultTableModel judged at every call over nine fault-provoking scenarios (incl. a destination file that vanishes before the checksum "
+            "is verified) x handler codes for every condition of both entities; an ignored limit fault may be declared again only after a "
+            "further full timer interval; regular and ticked pacing", "5 C14, 12", "fault scenario x handler table search"),
     "C05": ("whole filestore tree (names, types, contents) compared with a SparseFile / tree model after every handler call while a "
             "synthetic peer throws arbitrary well-formed PDU histories, timer advances, cancels and consecutive transactions at "
             "the destination handler; native (tmpfs sandbox with decoys) and in-memory filestore; separate population with "
